@@ -21,6 +21,8 @@ BINNINGS = {
     "C": (np.array([0.1, 0.55, 1.0]), "right"),
     # A with one inner edge moved by a relative 2e-6: the objects sitting exactly on 0.4 change bins
     "A3": (np.array([0.1, 0.4 * (1.0 - 2e-6), 0.7, 1.0]), "right"),
+    # the first two bins of A merged: every edge of D is an edge of A
+    "D": (np.array([0.1, 0.7, 1.0]), "right"),
 }
 
 
@@ -58,8 +60,12 @@ VARIANTS = {
     "A@s": ("A", dict(rmin=200.0, rmax=2000.0)),
     "A@k1": ("A", dict(toy_h=0.5)),
     "A@k2": ("A", dict(toy_h=0.9)),
+    # built with the Configuration constructor from ONE ScalesConfig / BinningConfig object shared by both
+    "A@s1": ("A", dict(toy_h=0.5, shared=True)),
+    "A@s2": ("A", dict(toy_h=0.9, shared=True)),
 }
 _TOY = {}
+_SHARED = {}
 
 
 def toy_cosmology(h: float):
@@ -93,6 +99,11 @@ def config_for(b):
     kw = dict(rmin=500.0, rmax=5000.0)
     if b in VARIANTS:
         extra = dict(VARIANTS[b][1])
+        if extra.pop("shared", False):
+            if "cfg" not in _SHARED:
+                _SHARED["cfg"] = yaw.Configuration.create(edges=edges, closed=closed, **kw)
+            donor = _SHARED["cfg"]
+            return yaw.Configuration(donor.scales, donor.binning, cosmology=toy_cosmology(extra["toy_h"]))
         if "toy_h" in extra:
             kw["cosmology"] = toy_cosmology(extra.pop("toy_h"))
         kw.update(extra)
@@ -145,12 +156,13 @@ def build(cat, b, force=False):
         cat.build_trees(edges, closed=closed, force=force, max_workers=1)
 
 
-def measure(cat_dir, b, aux_dir):
+def measure(cat_dir, b, aux_dir, handle=None):
     """A measurement that uses the catalog at ``cat_dir`` with binning b: as the
     binned reference sample of an autocorrelation (b != N) or as the unbinned
-    unknown sample of a cross-correlation (b = N).  Returns a bit-exact digest."""
+    unknown sample of a cross-correlation (b = N).  Returns a bit-exact digest.
+    handle: an already open Catalog object of that directory to measure through."""
     yaw = data.import_yaw()
-    cat = yaw.Catalog(cat_dir, max_workers=1)
+    cat = handle if handle is not None else yaw.Catalog(cat_dir, max_workers=1)
     rnd = yaw.Catalog(Path(aux_dir) / "rnd", max_workers=1)
     if b == "N":
         ref = yaw.Catalog(Path(aux_dir) / "refaux", max_workers=1)
